@@ -2,57 +2,75 @@ import ScyllaVerif.Model.Util
 import ScyllaVerif.Model.Ring
 import ScyllaVerif.Model.Replicas
 import ScyllaVerif.Model.Refresh
+import ScyllaVerif.Model.C04Fetch
 import ScyllaVerif.Drive.Topology
-/-! Line-protocol driver for C04.  Case: `q<kind> <topology> <keyspace strategies> <strategy> <dc|-> <token>`
-(syntax in `Drive/Topology.lean`).  Output: `len=… iter=… choose=… ord=… ep=… epl=… epu=…` — the size, the iteration order,
-`choose` for every index `0..len`, the ring-ordered view, and `get_token_endpoints` for the first keyspace (`k0`), the last one, and an unknown keyspace.
-A history case `h<kind> <n> (<mode> <topology> <strategies>)×n <strategy> <dc|-> <token>` builds a cluster (`n`) and
-applies refreshes (`r` full, `t` topology only); its output is the observation after every step, joined by ` / `.
-Everything is deterministic (the random index of `choose` is swept by a scripted RNG), so `impl` is ignored. -/
+import ScyllaVerif.Drive.C04Fetch
+/-! Line-protocol driver for C04.  Case kinds (first word; only its first letter matters, the rest feeds the
+evidence histogram):
+
+* `q… <topology> <keyspaces> <strategy> <dc|-> <token>` — a cluster built from scratch (syntax in
+  `Drive/Topology.lean`).  `<keyspaces>` = the keyspaces `k0, k1, …` as `|`-separated strategies; `!` = the fetch of
+  that keyspace failed (`resolve_metadata_keyspaces`: the previous state's definition is kept, else the keyspace
+  is absent).  Output: `len=… iter=… choose=… ord=… ep=… epl=… epu=…` — size, iteration order, `choose` for every index,
+  the ring-ordered view, `get_token_endpoints` for `k0`, for the last keyspace of the list, and for an unknown one.
+* `h… <n> (<mode> <topology> <keyspaces>)×n <strategy> <dc|-> <token>` — a history: `n` builds the cluster, `r` / `t`
+  full / topology-only refresh (keyspaces `=`) with a rejecting host filter, `R` / `T` with an accepting one,
+  `F` / `G` with a per-peer verdict (peer flag `a` = accepted; the old nodes' enabled-ness is not cleared).
+  Output: the observation after every step plus `arms=` (per peer the arm of the node-reuse match), joined by ` / `.
+* `p <L|P> <row>` — one `system.local` / `system.peers` row → `Peer` (checker for the random dummy token).
+* `v <token counts|->` — `validate_peers`.
+* `s <options>` — replication option map → `Strategy`.
+* `m <rows> <options|options|…> <keyspace index> <dc|-> <token>` — rows and keyspace rows → cluster state → the
+  replica set of that keyspace's strategy (the implementation line starts with the dummy tokens it drew). -/
 namespace ScyllaVerif.Drive.C04
-open ScyllaVerif.Util ScyllaVerif.Ring ScyllaVerif.Replicas ScyllaVerif.Refresh ScyllaVerif.Drive.Topology
+open ScyllaVerif.Util ScyllaVerif.Ring ScyllaVerif.Replicas ScyllaVerif.Refresh ScyllaVerif.C04Fetch
+open ScyllaVerif.Drive.Topology ScyllaVerif.Drive.C04Fetch
 
 def optIds (l : List (Option Node)) : String :=
   if l.isEmpty then "-" else ",".intercalate (l.map (fun o => match o with | some n => toString n.id | none => "x"))
 
-/-- The observation line of one locator state: all views of the queried replica set and `get_token_endpoints`
-for the first, the last and an unknown keyspace. -/
-def observeLine (loc : Locator) (pre : List Strategy) (strat : Strategy) (dc : Option Nat) (tok : Int) : String :=
+/-- `S3|!|N0=2`: keyspace `k<i>` = the i-th entry; `!` = its fetch failed. -/
+def parseFetched (s : String) : Option Fetched :=
+  if s == "-" then some []
+  else ((s.splitOn "|").zipIdx.mapM (fun (w, i) =>
+    if w == "!" then some (i, none) else (parseStrategy w).map (fun st => (i, some st))))
+
+/-- The observation line of one state: all views of the queried replica set and `get_token_endpoints` for `k0`,
+`k<last>` and an unknown keyspace. -/
+def observeLine (loc : Locator) (ks : Keyspaces) (last : Nat) (strat : Strategy) (dc : Option Nat) (tok : Int) : String :=
   let rs := replicasForToken loc tok strat dc
   let len := rs.len loc
   let chosen := (List.range len).map (fun i => rs.choose loc i)
-  let ep := tokenEndpoints loc pre.head? tok
-  let epl := tokenEndpoints loc pre.getLast? tok
+  let ep := tokenEndpoints loc (ks.lookup 0) tok
+  let epl := tokenEndpoints loc (ks.lookup last) tok
   let epu := tokenEndpoints loc none tok
   s!"len={len} iter={nodeIds (rs.iter loc)} choose={optIds chosen} ord={nodeIds (rs.ordered loc)} ep={nodeIds ep} epl={nodeIds epl} epu={nodeIds epu}"
 
-/-- The peers as the hook hands them to the driver: address = position in the list; `accepted` = the host filter's verdict
-(false for the rejecting hooks, true for the accepting ones). -/
+/-- The peers as the hook hands them to the driver: address = position in the list; `accepted` = the host filter's
+verdict (false for the rejecting hooks, true for the accepting ones). -/
 def toMPeers (t : Topology) (accepted : Bool) : List MPeer :=
   (t.zipIdx).map (fun (p, i) => ⟨p.node, i, p.tokens, accepted⟩)
 
-/-- History steps `<mode> <topology> <strategies>`, mode `n` (new), `r` (full refresh), `t` (topology only,
-strategies written `=`), `R` / `T` (the same with an accepting host filter).  Returns the observation after every step, through the model of
-`calculate_new_topology` (`Model/Refresh.lean`); the rejecting hooks clear `is_enabled` before a refresh, all hooks set it afterwards from
-the specs.  Each step also prints, per peer, the arm of the reuse match it took (`c` = the previous object, `i` =
-inherited at a new address, `n` = new). -/
 def armLetter : Arm → Char
   | .reused => 'c'
   | .inherited => 'i'
   | .fresh => 'n'
 
+/-- History steps through the model of `calculate_new_topology` / `resolve_metadata_keyspaces` (`Model/Refresh.lean`);
+the rejecting hooks clear `is_enabled` before a refresh, all hooks set it afterwards from the specs (flag `d` =
+disabled).  `last` = index of the last keyspace of the most recent keyspace list. -/
 def runHistory (strat : Strategy) (dc : Option Nat) (tok : Int) :
-    List String → Option CState → List String → Option (List String)
-  | [], _, acc => some acc.reverse
-  | mode :: topo :: pre :: rest, st, acc =>
+    List String → Option CState → Nat → List String → Option (List String)
+  | [], _, _, acc => some acc.reverse
+  | mode :: topo :: pre :: rest, st, last, acc =>
     match parseTopologyEx topo with
     | none => none
     | some tx =>
       let t : Topology := tx.map (·.1)
-      let peers := toMPeers t (mode == "R" || mode == "T")
-      -- the hooks impose `enabled` on the new state from the specs: flag `d` = disabled
+      -- the host filter's verdict: nobody (r, t), everybody (R, T), the peers flagged `a` (F, G)
+      let peers : List MPeer := (tx.zipIdx).map (fun (p, i) =>
+        ⟨p.1.node, i, p.1.tokens, mode == "R" || mode == "T" || ((mode == "F" || mode == "G") && p.2.contains 'a')⟩)
       let ids := (tx.filter (fun p => !p.2.contains 'd')).map (·.1.node.id)
-      -- the state `calculate_new_topology` sees: the rejecting hooks clear `is_enabled` first
       let before : Option CState :=
         match mode, st with
         | "n", none => some ⟨[], [], ⟨[], precompute [] []⟩⟩
@@ -60,48 +78,133 @@ def runHistory (strat : Strategy) (dc : Option Nat) (tok : Int) :
         | "t", some st => some (st.setEnabled [])
         | "R", some st => some st
         | "T", some st => some st
+        | "F", some st => some st
+        | "G", some st => some st
         | _, _ => none
       match before with
       | none => none
       | some b =>
-        let next : Option CState :=
-          if mode == "t" || mode == "T" then (if pre == "=" then some (b.refreshTopology peers) else none)
-          else (parseStrategies pre).map (fun S => b.refresh peers S)
+        let next : Option (CState × Nat) :=
+          if mode == "t" || mode == "T" || mode == "G" then (if pre == "=" then some (b.refreshTopology peers, last) else none)
+          else (parseFetched pre).map (fun f => (b.refresh peers f, f.length - 1))
         match next with
         | none => none
-        | some st' =>
+        | some (st', last') =>
           let st' := st'.setEnabled ids
           let arms := String.ofList (peers.map (fun p => armLetter (pickArm b.known p)))
           let arms := if arms.isEmpty then "-" else arms
-          runHistory strat dc tok rest (some st')
-            ((observeLine st'.loc st'.keyspaces strat dc tok ++ " arms=" ++ arms) :: acc)
-  | _, _, _ => none
+          runHistory strat dc tok rest (some st') last'
+            ((observeLine st'.loc st'.keyspaces last' strat dc tok ++ " arms=" ++ arms) :: acc)
+  | _, _, _, _ => none
 
-def run (case _impl : String) : String :=
+/-- `dummies=<id>:<token>,…` at the head of the implementation's line of an `m` case. -/
+def parseDummies (w : String) : Option (List (Nat × Int)) :=
+  if !w.startsWith "dummies=" then none
+  else
+    let body := (w.drop 8).toString
+    if body == "-" then some []
+    else (body.splitOn ",").mapM (fun e => match e.splitOn ":" with
+      | [i, t] => match i.toNat?, t.toInt? with
+        | some i, some t => some (i, t)
+        | _, _ => none
+      | _ => none)
+
+def runRows (rows : List Row) (opts : List (List (String × String))) (ksIdx : Nat) (dc : Option Nat) (tok : Int)
+    (impl : String) : String :=
+  let implW := words impl
+  -- which rows need a dummy token, and which the implementation reports
+  let need := (rows.filter needsDummy).filterMap (·.hostId)
+  -- a fetch that validate_peers refuses is never published
+  let dummyOf (ds : List (Nat × Int)) (r : Row) : Int := match r.hostId with
+    | some id => (ds.lookup id).getD 0
+    | none => 0
+  let finish (ds : List (Nat × Int)) : String :=
+    let peers := rows.filterMap (fun r => peerFromRow r (dummyOf ds r))
+    match validatePeers peers with
+    | .error e => "invalid " ++ ((validateLine (.error e)).drop 4).toString
+    | .ok _ =>
+      let fetched : Fetched := opts.zipIdx.map (fun (m, i) => (i, (strategyFromOptions m).toOption.map toStrategy))
+      let st := CState.fresh (toMPeers (peersToTopology peers) false) fetched
+      let strat := (st.keyspaces.lookup ksIdx).getD .localStrategy
+      let head := "dummies=" ++ (if ds.isEmpty then "-" else ",".intercalate (ds.map (fun e => s!"{e.1}:{e.2}")))
+      head ++ " " ++ observeLine st.loc st.keyspaces (opts.length - 1) strat dc tok
+  match implW with
+  | "invalid" :: _ => if need.isEmpty then finish [] else
+      -- dummy tokens make token lists non-empty; only "no peers" can still be invalid
+      finish (need.map (fun i => (i, 0)))
+  | w :: _ =>
+    match parseDummies w with
+    | none => "REJECT unparsable dummies"
+    | some ds =>
+      if ds.map (·.1) != need then "REJECT dummy tokens expected for hosts " ++ natList need
+      else if !ds.all (fun e => i64ok e.2 && e.2 != -9223372036854775808) then "REJECT dummy token out of range"
+      else finish ds
+  | [] => "REJECT empty"
+
+def run (case impl : String) : String :=
   match words case with
-  | [q, topo, pre, strat, dc, tok] =>
-    if !q.startsWith "q" then "bad-case" else
-    match parseTopology topo, parseStrategies pre, parseStrategy strat, parseOptNat dc, tok.toInt? with
-    | some topo, some pre, some strat, some dc, some tok =>
-      if !i64ok tok then "bad-case" else
-      observeLine (Topology.locator topo pre) pre strat dc (tokenNew tok)
-    | _, _, _, _, _ => "bad-case"
-  | h :: n :: rest =>
-    if !h.startsWith "h" then "bad-case" else
-    match n.toNat? with
-    | none => "bad-case"
-    | some n =>
-      if n = 0 || rest.length != 3 * n + 3 then "bad-case" else
-      match rest.drop (3 * n) with
-      | [strat, dc, tok] =>
-        match parseStrategy strat, parseOptNat dc, tok.toInt? with
-        | some strat, some dc, some tok =>
+  | [] => "bad-case"
+  | k :: args =>
+    if k.startsWith "q" then
+      match args with
+      | [topo, pre, strat, dc, tok] =>
+        match parseTopology topo, parseFetched pre, parseStrategy strat, parseOptNat dc, tok.toInt? with
+        | some topo, some pre, some strat, some dc, some tok =>
           if !i64ok tok then "bad-case" else
-          match runHistory strat dc (tokenNew tok) (rest.take (3 * n)) none [] with
-          | some lines => " / ".intercalate lines
-          | none => "bad-case"
-        | _, _, _ => "bad-case"
+          let st := CState.fresh (toMPeers topo false) pre
+          observeLine st.loc st.keyspaces (pre.length - 1) strat dc (tokenNew tok)
+        | _, _, _, _, _ => "bad-case"
       | _ => "bad-case"
-  | _ => "bad-case"
+    else if k.startsWith "h" then
+      match args with
+      | n :: rest =>
+        match n.toNat? with
+        | none => "bad-case"
+        | some n =>
+          if n = 0 || rest.length != 3 * n + 3 then "bad-case" else
+          match rest.drop (3 * n) with
+          | [strat, dc, tok] =>
+            match parseStrategy strat, parseOptNat dc, tok.toInt? with
+            | some strat, some dc, some tok =>
+              if !i64ok tok then "bad-case" else
+              match runHistory strat dc (tokenNew tok) (rest.take (3 * n)) none 0 [] with
+              | some lines => " / ".intercalate lines
+              | none => "bad-case"
+            | _, _, _ => "bad-case"
+          | _ => "bad-case"
+      | _ => "bad-case"
+    else if k == "p" then
+      match args with
+      | [src, row] =>
+        if src != "L" && src != "P" then "bad-case" else
+        match parseRow row with
+        | some r => runPeer r impl
+        | none => "bad-case"
+      | _ => "bad-case"
+    else if k == "v" then
+      match args with
+      | [counts] =>
+        match parseNatList counts with
+        | some cs => validateLine (validatePeers (cs.zipIdx.map (fun (c, i) => ⟨i, none, none, List.replicate c 0⟩)))
+        | none => "bad-case"
+      | _ => "bad-case"
+    else if k == "s" then
+      match args with
+      | [opts] => match parseOptions opts with
+        | some m => runStrategy m impl
+        | none => "bad-case"
+      | _ => "bad-case"
+    else if k == "m" then
+      match args with
+      | [rows, opts, ksIdx, dc, tok] =>
+        match parseRows rows, (if opts == "-" then some [] else (opts.splitOn "|").mapM parseOptions), ksIdx.toNat?,
+            parseOptNat dc, tok.toInt? with
+        | some rows, some opts, some ksIdx, some dc, some tok =>
+          if !i64ok tok then "bad-case"
+          else if ((rows.filterMap (·.hostId)).eraseDups.length != (rows.filterMap (·.hostId)).length) then "bad-case"
+          else runRows rows opts ksIdx dc (tokenNew tok) impl
+        | _, _, _, _, _ => "bad-case"
+      | _ => "bad-case"
+    else "bad-case"
 
 end ScyllaVerif.Drive.C04
